@@ -8,6 +8,7 @@ import (
 	"encoding/json"
 	"io"
 	"mime/multipart"
+	"net"
 	"net/http/httptest"
 	"time"
 
@@ -84,4 +85,16 @@ func VerifSessionDataDir(s *Session, id string) string {
 		return p.getDataDir(id)
 	}
 	return ""
+}
+
+// VerifInjectIncoming hands a connection to the torrent as if its acceptor had accepted it.
+func VerifInjectIncoming(t *Torrent, c net.Conn) bool {
+	select {
+	case t.torrent.incomingConnC <- c:
+		return true
+	case <-t.torrent.closeC:
+		return false
+	case <-time.After(time.Second):
+		return false
+	}
 }
